@@ -3,15 +3,13 @@ package main
 import (
 	"encoding/json"
 	"fmt"
-	"go/format"
-	"os"
 	"path/filepath"
+	"os"
 	"sort"
 	"strings"
 	"sync"
 	"time"
 
-	"verif/sim/c12model"
 	"verif/sim/idlgen"
 	"verif/sim/simrt"
 )
@@ -438,22 +436,8 @@ func c11Judge(c *c11Case, wr *worldRun) *c11Verdict {
 	}
 
 	// ---- clause 5: exit 0 => complete output ----
-	var feeds []fedCall
-	for _, t := range res.Taps["feed"] {
-		var fc fedCall
-		json.Unmarshal(t, &fc)
-		feeds = append(feeds, fc)
-	}
-	var groups [][]fedCall
-	for _, fc := range feeds {
-		if fc.Src == "thriftgo" {
-			groups = append(groups, nil)
-		}
-		if len(groups) == 0 {
-			groups = append(groups, nil)
-		}
-		groups[len(groups)-1] = append(groups[len(groups)-1], fc)
-	}
+	groups := feedGroups(res)
+	ptaps := persistTaps(res)
 	allHealthy := true
 	for i := range c.Plugins {
 		k := c.Plugins[i].Kind
@@ -476,6 +460,14 @@ func c11Judge(c *c11Case, wr *worldRun) *c11Verdict {
 		}
 		return v
 	}
+	// output that was damaged in transit but still decodes is left unasserted (DESIGN 5.3 clause 3);
+	// damaged names need not even be valid UTF-8, which the JSON transport of the result cannot carry
+	for _, pr := range res.Procs {
+		if string(pr.Notes["out.mangled"]) == "true" {
+			v.Trivia["assembly-not-judged-mangled-output"]++
+			return v
+		}
+	}
 	if len(groups) != len(langs) {
 		return bad("exit0-incomplete", "exit0-incomplete:language-skipped", "thriftgo exited with status 0 but produced output for %d of %d requested languages; stdout: %s", len(groups), len(langs), clip(wr.Stdout, 300))
 	}
@@ -486,102 +478,31 @@ func c11Judge(c *c11Case, wr *worldRun) *c11Verdict {
 		}
 	}
 	for gi, g := range groups {
-		work := &c12model.Work{}
-		for _, fc := range g {
-			fd := c12model.Feed{Src: fc.Src}
-			for _, f := range fc.Files {
-				it := c12model.Item{Content: string(f.Content)}
-				if f.HasName {
-					it.Name = string(f.Name)
-				}
-				if f.HasIP {
-					it.IP, it.IPSet = string(f.IP), true
-				}
-				fd.Items = append(fd.Items, it)
-			}
-			work.Feeds = append(work.Feeds, fd)
+		var pt *persistTap
+		if gi < len(ptaps) {
+			pt = ptaps[gi]
 		}
-		pre := c12model.Judge(work, nil, nil)
-		if pre.Undefined != "" || pre.FeedErrAt >= 0 {
+		// with two languages the second one is formatted by the first one's post-processor or not at all:
+		// content is compared with and without formatting in judgeOutput, so noFmt only matters for language 0
+		over := map[string]bool{}
+		for gj := gi + 1; gj < len(ptaps); gj++ {
+			for _, f := range ptaps[gj].Files {
+				p := string(f.Name)
+				if !filepath.IsAbs(p) {
+					p = filepath.Join(c.Cwd, p)
+				}
+				over[filepath.Clean(p)] = true
+			}
+		}
+		cls, sig, msg, judged := judgeOutput(c.Cwd, noFmt && gi == 0, res, g, pt, over)
+		if !judged {
 			v.Trivia["assembly-not-judged"]++
 			continue
 		}
-		// the response as persisted: every file written in this run, by the name it was submitted under
-		var rfs []c12model.RespFile
-		abs := func(n string) string {
-			if !filepath.IsAbs(n) {
-				n = filepath.Join(c.Cwd, n)
-			}
-			return filepath.Clean(n)
-		}
-		// candidate names: written paths; a submitted name maps to its absolute path
-		written := map[string]string{}
-		for _, a := range res.FSLog {
-			if a.Op == "open-w" && a.Err == "" {
-				written[a.Path] = string(res.Disk[a.Path])
-			}
-		}
-		// names as submitted (relative or absolute) -> use the submitted spelling where one matches
-		spelled := map[string]string{}
-		for _, fd := range work.Feeds {
-			for _, it := range fd.Items {
-				if it.Name != "" {
-					spelled[abs(it.Name)] = it.Name
-				}
-			}
-		}
-		var wpaths []string
-		for p := range written {
-			wpaths = append(wpaths, p)
-		}
-		sort.Strings(wpaths)
-		for _, p := range wpaths {
-			n := p
-			if s, ok := spelled[p]; ok {
-				n = s
-			}
-			rfs = append(rfs, c12model.RespFile{Name: n, Content: written[p]})
-		}
-		if rfs == nil {
-			rfs = []c12model.RespFile{}
-		}
-		same := func(name, got, want string) bool {
-			if strings.HasSuffix(name, ".go") && !noFmt {
-				// formatted by the post-processor (go/format of the same toolchain); a file
-				// that does not parse is kept as it is
-				if got == want {
-					return true
-				}
-				if f, err := format.Source([]byte(want)); err == nil && string(f) == got {
-					return true
-				}
-				if os.Getenv("VERIF_DEBUG_DIR") != "" {
-					os.WriteFile(filepath.Join(os.Getenv("VERIF_DEBUG_DIR"), "got.txt"), []byte(got), 0o644)
-					os.WriteFile(filepath.Join(os.Getenv("VERIF_DEBUG_DIR"), "want.txt"), []byte(want), 0o644)
-				}
-				return false
-			}
-			return got == want
-		}
-		if len(langs) > 1 {
-			// with two languages the disk holds both outputs; judge presence only
-			for _, e := range pre.Table {
-				if _, ok := written[abs(e.Name)]; !ok && e.RenamedFrom == "" {
-					return bad("exit0-incomplete", "exit0-incomplete:file-missing", "thriftgo exited with status 0 but %q of language %d is not on the disk", e.Name, gi)
-				}
-			}
-			continue
-		}
-		jv := c12model.Judge(work, rfs, same)
-		if jv.Class != "" {
-			cls := "assembly:" + jv.Class
-			if jv.Class == "missing-file" {
-				cls = "exit0-incomplete"
-			}
-			return bad(cls, cls+":"+jv.Sig, "thriftgo exited with status 0 but the output is not what was handed in: %s", jv.Msg)
+		if cls != "" {
+			return bad(cls, sig, "language %d: %s", gi, msg)
 		}
 		v.Trivia["assembly-judged"]++
-		v.Trivia[fmt.Sprintf("assembly-kept-%d", bucketN(jv.Kept))]++
 	}
 
 	// ---- clause 2: warnings shown ----
